@@ -26,9 +26,11 @@ import (
 	"os/exec"
 	"path/filepath"
 	"regexp"
+	"runtime"
 	"sort"
 	"strings"
 	"sync"
+	"sync/atomic"
 	"time"
 	"unicode/utf8"
 
@@ -106,7 +108,7 @@ func (mc *modelConn) ask(reqs []string) ([]string, error) {
 	}
 	ta := time.Now()
 	ans, err := mc.m.Ask(reqs)
-	tFirst += time.Since(ta)
+	addT(&tFirst, time.Since(ta))
 	if err != nil {
 		return ans, err
 	}
@@ -144,7 +146,7 @@ func (mc *modelConn) ask(reqs []string) ([]string, error) {
 		}
 		tb := time.Now()
 		a2, err := mc.m.Ask(again)
-		tRounds += time.Since(tb)
+		addT(&tRounds, time.Since(tb))
 		if err != nil {
 			return ans, err
 		}
@@ -637,15 +639,37 @@ var tFirst, tRounds time.Duration
 var tModel, tSeq, tConc, tE2E, tDisk time.Duration
 
 type runner struct {
-	raceLog  string         // path prefix of the race detector's log files ("" = unknown)
-	raceSeen map[string]int // bytes of each log file already reported
+	mu       sync.Mutex      // guards res, raceSeen and the time accumulators (directories run in parallel)
+	models   chan *modelConn // one model process per worker
+	raceLog  string          // path prefix of the race detector's log files ("" = unknown)
+	raceSeen map[string]int  // bytes of each log file already reported
 	f        *common.Flags
 	res      *common.Result
 	mc       *modelConn
-	ndir     int
+	ndirA    int64
 }
 
 func init() { log.SetOutput(io.Discard) }
+
+func (rn *runner) count(b string) { rn.mu.Lock(); rn.res.Count(b); rn.mu.Unlock() }
+func (rn *runner) caseOf(k string, nt bool) {
+	rn.mu.Lock()
+	rn.res.Case(k, nt)
+	rn.mu.Unlock()
+}
+func (rn *runner) sample(x any) { rn.mu.Lock(); rn.res.Sample(x); rn.mu.Unlock() }
+func (rn *runner) note(s string) {
+	rn.mu.Lock()
+	if len(rn.res.Notes) < 40 {
+		rn.res.Notes = append(rn.res.Notes, s)
+	}
+	rn.mu.Unlock()
+}
+
+var timeMu sync.Mutex
+
+func addT(t *time.Duration, d time.Duration) { timeMu.Lock(); *t += d; timeMu.Unlock() }
+func (rn *runner) nextDir() int64            { return atomic.AddInt64(&rn.ndirA, 1) }
 
 func tdJSON(td *TestDir) string {
 	b, _ := json.Marshal(td)
@@ -683,18 +707,19 @@ func (rn *runner) evalDir(td *TestDir, seed uint64, only *request, report bool) 
 	fail := func(kind, oracle, u, model, impl, detail string) {
 		fails = append(fails, failure{kind, oracle, u, model, impl, detail})
 	}
-	rn.ndir++
-	root := filepath.Join(rn.f.Work, fmt.Sprintf("dir%05d", rn.ndir))
+	mc := <-rn.models // one model process per worker
+	defer func() { rn.models <- mc }()
+	root := filepath.Join(rn.f.Work, fmt.Sprintf("dir%05d", rn.nextDir()))
 	defer os.RemoveAll(root)
 	if err := td.materialise(root); err != nil {
 		if report {
-			rn.res.Count("skipped:cannot-materialise")
+			rn.count("skipped:cannot-materialise")
 		}
 		return nil
 	}
 	dreq, err := encodeDir(root)
 	if err != nil {
-		rn.res.Notes = append(rn.res.Notes, "cannot read directory back: "+err.Error())
+		rn.note("cannot read directory back: " + err.Error())
 		return nil
 	}
 	r := common.NewRNG(seed)
@@ -720,18 +745,18 @@ func (rn *runner) evalDir(td *TestDir, seed uint64, only *request, report bool) 
 	// ---- model: server start and the module list
 	// (the directory and its module list first, so that the oracle entries readModList needs are
 	// supplied once and not once per request)
-	if _, err := rn.mc.ask([]string{dreq, "modlist"}); err != nil {
-		rn.res.Notes = append(rn.res.Notes, "model error: "+err.Error())
+	if _, err := mc.ask([]string{dreq, "modlist"}); err != nil {
+		rn.note("model error: " + err.Error())
 	}
 	mreqs := []string{dreq, "modlist"}
 	for _, q := range reqs {
 		mreqs = append(mreqs, "req "+hx(q.URL))
 	}
 	t0 := time.Now()
-	mans, err := rn.mc.ask(mreqs)
-	tModel += time.Since(t0)
+	mans, err := mc.ask(mreqs)
+	addT(&tModel, time.Since(t0))
 	if err != nil {
-		rn.res.Notes = append(rn.res.Notes, "model error: "+err.Error())
+		rn.note("model error: " + err.Error())
 		fail("correspondence", "model-process", "", "", "", err.Error())
 		return fails
 	}
@@ -749,8 +774,8 @@ func (rn *runner) evalDir(td *TestDir, seed uint64, only *request, report bool) 
 			}
 		}
 		t0 = time.Now()
-		parts := strings.Split(rn.mc.ask1("seq "+strings.Join(us, " ")), " | ")
-		tModel += time.Since(t0)
+		parts := strings.Split(mc.ask1("seq "+strings.Join(us, " ")), " | ")
+		addT(&tModel, time.Since(t0))
 		k := 0
 		for i, q := range reqs {
 			if sendable(q.URL) && k < len(parts) {
@@ -763,7 +788,7 @@ func (rn *runner) evalDir(td *TestDir, seed uint64, only *request, report bool) 
 	// ---- implementation: a fresh server
 	srv, err := goproxytest.NewServer(root, "127.0.0.1:0")
 	if report {
-		rn.res.Count(fmt.Sprintf("server-starts:%v", err == nil))
+		rn.count(fmt.Sprintf("server-starts:%v", err == nil))
 	}
 	if (err == nil) != modelStarts {
 		fail("correspondence", "server-start", "", mans[1], fmt.Sprint(err), "readModList: model and implementation disagree on whether the directory can be served")
@@ -773,7 +798,7 @@ func (rn *runner) evalDir(td *TestDir, seed uint64, only *request, report bool) 
 			fail("impl-violation", "clean-dir-served", "", "", err.Error(), "a directory that follows the documented naming cannot be served")
 		}
 		if report {
-			rn.res.Case("noserver:"+dreq, true)
+			rn.caseOf("noserver:"+dreq, true)
 		}
 		return fails
 	}
@@ -782,7 +807,6 @@ func (rn *runner) evalDir(td *TestDir, seed uint64, only *request, report bool) 
 	// sequential phase on one server (requests in a fixed order)
 	impl := make([]resp, len(reqs))
 	t1 := time.Now()
-	defer func() { tSeq += 0 }()
 	for i, q := range reqs {
 		if !sendable(q.URL) {
 			continue
@@ -790,13 +814,13 @@ func (rn *runner) evalDir(td *TestDir, seed uint64, only *request, report bool) 
 		impl[i] = get(host, q.URL)
 	}
 	srv.Close()
-	tSeq += time.Since(t1)
+	addT(&tSeq, time.Since(t1))
 
 	aliasSeen := false
 	for i, q := range reqs {
 		if !sendable(q.URL) {
 			if report {
-				rn.res.Count("model-only:not-sendable")
+				rn.count("model-only:not-sendable")
 				if mans[2+i] != "404" {
 					fail("correspondence", "unsendable-url-not-404", q.URL, mans[2+i], "", "the model serves a URL path that cannot be requested")
 				}
@@ -805,9 +829,9 @@ func (rn *runner) evalDir(td *TestDir, seed uint64, only *request, report bool) 
 		}
 		ob := impl[i].obs()
 		if report {
-			rn.res.Count("class:" + q.Class)
-			rn.res.Count("outcome:" + q.Class + ":" + strings.SplitN(ob, " ", 2)[0])
-			rn.res.Case(fmt.Sprintf("%d|%s|%s", rn.ndir, q.URL, ob), !strings.HasPrefix(ob, "404") || q.Class != "malformed")
+			rn.count("class:" + q.Class)
+			rn.count("outcome:" + q.Class + ":" + strings.SplitN(ob, " ", 2)[0])
+			rn.caseOf(fmt.Sprintf("%d|%s|%s", td.idx, q.URL, ob), !strings.HasPrefix(ob, "404") || q.Class != "malformed")
 		}
 		if modelStarts && ob != seqAns[i] && impl[i].Err == "" {
 			fail("correspondence", "response:"+q.Class, q.URL, clip([]byte(seqAns[i])), clip([]byte(ob)), "model response (one server, same request order) and HTTP response differ")
@@ -822,11 +846,11 @@ func (rn *runner) evalDir(td *TestDir, seed uint64, only *request, report bool) 
 			fail("correspondence", "history-independent:"+q.Class, q.URL, clip([]byte(seqAns[i])), clip([]byte(mans[2+i])), "in a clean directory the model's response depends on earlier requests (Model = after the earlier requests, Impl = fresh server)")
 		}
 		if report && modelStarts && seqAns[i] != mans[2+i] {
-			rn.res.Count("history-dependent-response(aliasing)")
+			rn.count("history-dependent-response(aliasing)")
 		}
 		if impl[i].Err != "" {
 			if report {
-				rn.res.Count("http-error")
+				rn.count("http-error")
 			}
 			fail("impl-violation", "no-response/"+q.Class, q.URL, "", "transport error: "+impl[i].Err,
 				"the server did not answer the request (handler panic / connection closed); the model says "+clip([]byte(seqAns[i])))
@@ -900,13 +924,13 @@ func (rn *runner) evalDir(td *TestDir, seed uint64, only *request, report bool) 
 			close(start)
 			wg.Wait()
 			srv2.Close()
-			tConc += time.Since(t2)
+			addT(&tConc, time.Since(t2))
 			for j, jb := range jobs {
 				seqObs := impl[jb.idx].obs()
 				for k := 0; k < par; k++ {
 					if out[j][k].Err != "" {
 						if report {
-							rn.res.Count("http-error")
+							rn.count("http-error")
 						}
 						fail("impl-violation", "concurrent/first-requests", jb.q.URL, "", "transport error: "+out[j][k].Err,
 							"a concurrent first request on a fresh server was not answered (connection closed / reset), sequential response: "+clip([]byte(seqObs)))
@@ -914,15 +938,15 @@ func (rn *runner) evalDir(td *TestDir, seed uint64, only *request, report bool) 
 					}
 					ob := out[j][k].obs()
 					if report {
-						rn.res.Count("concurrent-request")
-						rn.res.Case(fmt.Sprintf("c|%d|%s|%d", rn.ndir, jb.q.URL, k), true)
+						rn.count("concurrent-request")
+						rn.caseOf(fmt.Sprintf("c|%d|%s|%d", td.idx, jb.q.URL, k), true)
 					}
 					if !td.Clean {
 						// with "_" two requests can alias one archive under two names; the zip cache then
 						// keeps the first requester's prefix and the responses legitimately depend on
 						// the schedule (C20_alias_history_dependent): exercised under -race, not compared
 						if report {
-							rn.res.Count("concurrent-request:not-compared(aliasing possible)")
+							rn.count("concurrent-request:not-compared(aliasing possible)")
 						}
 						continue
 					}
@@ -959,21 +983,21 @@ func (rn *runner) evalDir(td *TestDir, seed uint64, only *request, report bool) 
 			for k := 0; k < 4*len(us); k++ {
 				sched = append(sched, fmt.Sprint(r.Intn(len(us))))
 			}
-			a := rn.mc.ask1("conc " + strings.Join(sched, ",") + " " + strings.Join(us, " "))
+			a := mc.ask1("conc " + strings.Join(sched, ",") + " " + strings.Join(us, " "))
 			if report {
-				rn.res.Count("model-interleaving")
+				rn.count("model-interleaving")
 			}
 			if a != strings.Join(want, " | ") {
 				fail("correspondence", "model-interleaving", "", clip([]byte(a)), "", "an interleaving of the model's handlers does not give the sequential responses; schedule "+strings.Join(sched, ",")+" over "+strings.Join(us, " "))
 			}
 		}
 	}
-	if report && rn.ndir%37 == 1 {
+	if report && td.idx%37 == 1 {
 		var mods []string
 		for _, m := range td.Mods {
 			mods = append(mods, fmt.Sprintf("%s@%s (%s, %d files)", m.Path, m.Vers, m.Layout, len(m.Files)))
 		}
-		rn.res.Sample(map[string]any{"modules": mods, "clean": td.Clean, "requests": len(reqs), "modlist": clip([]byte(mans[1]))})
+		rn.sample(map[string]any{"modules": mods, "clean": td.Clean, "requests": len(reqs), "modlist": clip([]byte(mans[1]))})
 	}
 	return fails
 }
@@ -981,6 +1005,8 @@ func (rn *runner) evalDir(td *TestDir, seed uint64, only *request, report bool) 
 // ---------------------------------------------------------------- escaping, directly
 
 func (rn *runner) escapeChecks(r *common.RNG, n int) {
+	mc := <-rn.models
+	defer func() { rn.models <- mc }()
 	alphabet := "aAzZ!v1.-_/+~b "
 	var reqs []string
 	var want []string
@@ -1014,20 +1040,20 @@ func (rn *runner) escapeChecks(r *common.RNG, n int) {
 					rn.res.Violate(common.Violation{Kind: "impl-violation", Oracle: "unescape-escape", Input: map[string]string{"s": s}, Key: "ue:" + s})
 				}
 			}
-		} else if a := rn.mc.ask1("unescape " + hx(s)); a != "err" {
+		} else if a := mc.ask1("unescape " + hx(s)); a != "err" {
 			// the model unescapes: then checkElem must be what rejected it
 			if checkElemFile(string(common.UnHex(strings.TrimPrefix(a, "ok ")))) {
 				rn.res.Violate(common.Violation{Kind: "correspondence", Oracle: "unescape", Input: map[string]string{"s": s, "s_hex": hx(s)}, Model: a, Impl: "err", Key: "un:" + s})
 			}
 		}
 	}
-	ans, err := rn.mc.ask(reqs)
+	ans, err := mc.ask(reqs)
 	if err != nil {
 		return
 	}
 	for i := range ans {
-		rn.res.Case("esc|"+reqs[i], true)
-		rn.res.Count("escape-check")
+		rn.caseOf("esc|"+reqs[i], true)
+		rn.count("escape-check")
 		if ans[i] != want[i] {
 			rn.res.Violate(common.Violation{Kind: "correspondence", Oracle: strings.Fields(reqs[i])[0],
 				Input: map[string]string{"s": ins[i], "s_hex": hx(ins[i])}, Model: ans[i], Impl: want[i], Key: reqs[i]})
@@ -1040,7 +1066,7 @@ func (rn *runner) escapeChecks(r *common.RNG, n int) {
 func (rn *runner) goModDownload(tds []*TestDir, limit int) {
 	gobin, err := exec.LookPath("go")
 	if err != nil {
-		rn.res.Notes = append(rn.res.Notes, "go mod download: go command not found, skipped")
+		rn.note("go mod download: go command not found, skipped")
 		return
 	}
 	done, okc := 0, 0
@@ -1086,9 +1112,9 @@ func (rn *runner) goModDownload(tds []*TestDir, limit int) {
 				"GOSUMDB=off", "GONOPROXY=", "GOPRIVATE=", "GOMODCACHE="+cache, "GOTOOLCHAIN=local", "GOWORK=off", "GOINSECURE=*", "GOVCS=*:off")
 			out, err := cmd.CombinedOutput()
 			if err != nil {
-				rn.res.Count("go-mod-download:failed")
+				rn.count("go-mod-download:failed")
 				if len(rn.res.Notes) < 8 {
-					rn.res.Notes = append(rn.res.Notes, fmt.Sprintf("go mod download %s@%s failed (not counted as a violation): %s", m.Path, m.Vers, clip(out)))
+					rn.note(fmt.Sprintf("go mod download %s@%s failed (not counted as a violation): %s", m.Path, m.Vers, clip(out)))
 				}
 				continue
 			}
@@ -1116,8 +1142,8 @@ func (rn *runner) goModDownload(tds []*TestDir, limit int) {
 			} else if es, ok := decodeZip(zb); !ok || !sameEntries(sortedEntries(es), m.wantZip()) {
 				bad = ".zip content"
 			}
-			rn.res.Count("go-mod-download:ok")
-			rn.res.Case("e2e|"+m.Path+"@"+m.Vers, true)
+			rn.count("go-mod-download:ok")
+			rn.caseOf("e2e|"+m.Path+"@"+m.Vers, true)
 			okc++
 			if bad != "" {
 				u, _ := fileURL(m.Path, m.Vers, "zip")
@@ -1128,7 +1154,7 @@ func (rn *runner) goModDownload(tds []*TestDir, limit int) {
 		exec.Command("chmod", "-R", "u+w", root).Run() // the module cache is read-only
 		os.RemoveAll(root)
 	}
-	rn.res.Notes = append(rn.res.Notes, fmt.Sprintf("go mod download end-to-end: %d attempted, %d succeeded and compared", done, okc))
+	rn.note(fmt.Sprintf("go mod download end-to-end: %d attempted, %d succeeded and compared", done, okc))
 }
 
 // ---------------------------------------------------------------- main
@@ -1146,21 +1172,39 @@ func main() {
 		f.Work = d
 		defer os.RemoveAll(d)
 	}
-	m, err := common.StartModel(f.Model)
-	if err != nil {
-		fmt.Fprintln(os.Stderr, "cannot start model:", err)
-		os.Exit(2)
+	// directories are evaluated by several workers, each with its own model process
+	workers := 8
+	if n := runtime.NumCPU() / 2; n < workers {
+		workers = n
 	}
-	defer m.Close()
-	mc := &modelConn{m: m}
-	// the pseudo-version regexp is compiled from the source text genconsts read from pseudo.go
-	src := string(common.UnHex(mc.m.Ask1("resrc")))
-	mc.pseudoRE, err = regexp.Compile(src)
-	if err != nil {
-		res.Notes = append(res.Notes, "pseudoVersionRE source does not compile: "+err.Error())
-		mc.pseudoRE = regexp.MustCompile(`^$`)
+	if workers < 1 || f.Replay != "" {
+		workers = 1
 	}
-	rn := &runner{f: f, res: res, mc: mc, raceLog: raceLog, raceSeen: map[string]int{}}
+	if w := os.Getenv("PROXY_WORKERS"); w != "" {
+		fmt.Sscan(w, &workers)
+	}
+	rn := &runner{f: f, res: res, raceLog: raceLog, raceSeen: map[string]int{}, models: make(chan *modelConn, workers)}
+	var conns []*modelConn
+	for i := 0; i < workers; i++ {
+		m, err := common.StartModel(f.Model)
+		if err != nil {
+			fmt.Fprintln(os.Stderr, "cannot start model:", err)
+			os.Exit(2)
+		}
+		defer m.Close()
+		mc := &modelConn{m: m}
+		// the pseudo-version regexp is compiled from the source text genconsts read from pseudo.go
+		src := string(common.UnHex(mc.m.Ask1("resrc")))
+		mc.pseudoRE, err = regexp.Compile(src)
+		if err != nil {
+			if i == 0 {
+				res.Notes = append(res.Notes, "pseudoVersionRE source does not compile: "+err.Error())
+			}
+			mc.pseudoRE = regexp.MustCompile(`^$`)
+		}
+		conns = append(conns, mc)
+		rn.models <- mc
+	}
 
 	if f.Replay != "" {
 		rp, err := common.LoadReplay(f.Replay)
@@ -1200,9 +1244,19 @@ func main() {
 
 	var all []*TestDir
 	shrunkPerOracle := map[string]int{}
+	type job struct {
+		td   *TestDir
+		seed uint64
+		fs   []failure
+	}
+	var queue []*job
 	one := func(td *TestDir, seed uint64) {
+		td.idx = len(queue) + 1
 		all = append(all, td)
-		fs := rn.evalDir(td, seed, nil, true)
+		queue = append(queue, &job{td: td, seed: seed})
+	}
+	// shrinkAndReport handles the failures of one directory (sequentially, after the parallel pass)
+	shrinkAndReport := func(td *TestDir, seed uint64, fs []failure) {
 		done := 0
 		for _, fl := range fs {
 			key := fl.kind + ":" + fl.oracle
@@ -1241,6 +1295,29 @@ func main() {
 				}
 			}
 			rn.violate(best, bestF, only)
+		}
+	}
+	runQueue := func() {
+		var wg sync.WaitGroup
+		next := int64(-1)
+		for w := 0; w < workers; w++ {
+			wg.Add(1)
+			go func() {
+				defer wg.Done()
+				for {
+					i := int(atomic.AddInt64(&next, 1))
+					if i >= len(queue) {
+						return
+					}
+					queue[i].fs = rn.evalDir(queue[i].td, queue[i].seed, nil, true)
+				}
+			}()
+		}
+		wg.Wait()
+		for _, j := range queue { // in generation order: the report does not depend on the scheduling
+			if len(j.fs) > 0 {
+				shrinkAndReport(j.td, j.seed, j.fs)
+			}
 		}
 	}
 
@@ -1283,6 +1360,7 @@ func main() {
 		res.Count("src:odd")
 		one(genOddDir(r.Fork()), r.Uint64())
 	}
+	runQueue()
 	// 4. escaping compared directly with x/mod
 	rn.escapeChecks(r.Fork(), nEsc)
 	// 5. go mod download end to end
@@ -1293,7 +1371,8 @@ func main() {
 	tE2E = time.Since(t3)
 	res.Notes = append(res.Notes, fmt.Sprintf("time: model %.1fs (first pass %.1fs, oracle rounds %.1fs), sequential HTTP %.1fs, concurrent HTTP %.1fs, big-archive concurrent rounds %.1fs, go mod download %.1fs", tModel.Seconds(), tFirst.Seconds(), tRounds.Seconds(), tSeq.Seconds(), tConc.Seconds(), tBig.Seconds(), tE2E.Seconds()))
 
-	res.Notes = append(res.Notes, fmt.Sprintf("%d oracle-table entries supplied to the model on demand in %d rounds, %d requests re-asked (x/mod CheckPath, checkElem, Check, semver.IsValid/Compare, pseudoVersionRE, json Short)", mc.supplied, mc.rounds, mc.reasked),
+	res.Notes = append(res.Notes, fmt.Sprintf("%d oracle-table entries supplied to the model on demand in %d rounds, %d requests re-asked (x/mod CheckPath, checkElem, Check, semver.IsValid/Compare, pseudoVersionRE, json Short)", sumConns(conns, 0), sumConns(conns, 1), sumConns(conns, 2)),
+		fmt.Sprintf("%d directories evaluated by %d parallel workers (one model process each); failures are shrunk and reported afterwards in generation order", len(queue), workers),
 		"module paths and versions containing \"_\" are excluded from the direct oracles (ambiguous on-disk naming); such directories are compared with the model only")
 	res.Rule = fmt.Sprintf("corpus, /repo's testdata/mod, %d clean generated module directories (1-3 modules x 1-4 versions: upper-case and nested paths, major suffixes, gopkg.in; semver, prerelease, pseudo, +incompatible, mismatching and invalid versions; .txt/.txtar/directory layouts; .info/.mod present or missing, nested, dot and empty files) and %d directories outside the naming discipline (two layouts at once, versions without v, underscores, undecodable names, wrong entry kinds, hand-written archives), each served by a real goproxytest.Server; per directory: list/info/mod/zip of every stored version, unknown modules/versions/extensions, a third of %d fixed malformed URLs (all in thorough), commit-hash requests, mutated URLs, then 16 concurrent first requests for each of up to 5 URLs (16 in thorough) on a fresh server and one random interleaving of the model's handlers; then 3 big modules (0.6-1.2 MB under the race detector, where loading and zipping them takes 100 ms and more: 600-member .txt archive, 250-file directory, 4 x 300 kB .txtar; 3-30 MB in thorough) each served by fresh servers hit by 16-32 first requests for info/mod/zip staggered by 0-5 ms, 3 rounds each, every response required to be 200 with the stored body, and the race detector's log read after every concurrent round; %d escape/unescape strings against x/mod; a case is one HTTP request (non-trivial unless a fixed malformed URL answered 404); distinct = distinct (directory, URL, response)", nClean, nOdd, len(malformed), nEsc)
 	res.Write(f.Out)
@@ -1339,3 +1418,11 @@ func fixtureDir(dir string) *TestDir {
 }
 
 const mutChars = "!/.@v_-Aaz0+~ "
+
+func sumConns(cs []*modelConn, what int) int {
+	t := 0
+	for _, c := range cs {
+		t += []int{c.supplied, c.rounds, c.reasked}[what]
+	}
+	return t
+}
